@@ -157,7 +157,7 @@ static bool applyContract(State &S, const CallBase *CB, const std::vector<Effect
         if (!CFG.traceRegions.empty() && p.k == Val::PTR && p.reg >= 0 && nhi > 0) {
           i128 olo, ohi; offsetBounds(S, p, olo, ohi);
           markRead(S, p.reg, olo, ohi + nhi);
-          addEvent(S, "{\"k\":\"cread\",\"callee\":\"" + std::string(CB->getCalledFunction() ? CB->getCalledFunction()->getName() : "?") + "\",\"fn\":\"" + std::string(CB->getFunction()->getName()) +
+          traceEvent("{\"k\":\"cread\",\"callee\":\"" + std::string(CB->getCalledFunction() ? CB->getCalledFunction()->getName() : "?") + "\",\"fn\":\"" + std::string(CB->getFunction()->getName()) +
                          "\",\"line\":" + std::to_string(lineOf(CB)) + ",\"reg\":\"" + S.regions[p.reg].name + "\",\"off\":" + rangeJ(olo, ohi) + ",\"len\":" + rangeJ(nlo, nhi) + ",\"root\":" + std::to_string(lr) + ",\"rk\":" + i128s(lk) + "}");
         }
       }
@@ -648,7 +648,6 @@ static uint64_t stateHash(const State &S, const BasicBlock *at) {
   }
   mix(S.nW > 0); mix(S.wroteReport);
   for (auto &e : S.events) for (char c : e) mix((uint64_t)c);
-  for (auto &kv : S.readBits) { mix((uint64_t)kv.first); for (size_t w = 0; w < 16; w++) mix(((const uint64_t *)&kv.second)[w]); }
   return h;
 }
 
